@@ -325,6 +325,22 @@ def run(ctx):
                 res.nontriv((si, kind, seqid, a, b, within, strand, str(ft)))
             if len(res.samples) < 3 and want:
                 res.sample({k: v for k, v in inp.items() if k != "lines"} | {"answer": want})
+        # region() without any position restriction, or with an empty featuretype collection: outside the property (the
+        # real code hands sqlite an incomplete statement); correspondence only - the model says OperationalError too
+        if si % 10 == 0:
+            for kw in (dict(), dict(strand="+"), dict(featuretype="exon"), dict(start=0), dict(end=0, completely_within=True),
+                       dict(seqid="chr1", featuretype=[])):
+                try:
+                    got = "ok " + enc_list(sorted(f.id for f in db.region(**kw)))
+                except Exception as ex:
+                    got = "err " + dbside.err_name(ex)
+                ftv = kw.get("featuretype")
+                cmds.append("region %s %s %s %s %s %s" % (
+                    "~" if kw.get("seqid") is None else enc(kw["seqid"]), kw.get("start", "~"), kw.get("end", "~"),
+                    "~" if kw.get("strand") is None else enc(kw["strand"]),
+                    "~" if ftv is None else enc_list([ftv] if isinstance(ftv, str) else ftv),
+                    "1" if kw.get("completely_within") else "0"))
+                exp.append(got); tags.append(("region without restriction", repr(kw)))
     out = ctx.model(cmds)
     if out is not None:
         for c, m, e, (comp, inp) in zip(cmds, out, exp, tags):
